@@ -10,6 +10,8 @@ final result.  Violations of the budget/return oracles found on the way belong t
 
 from __future__ import annotations
 
+from numpy import array
+
 from . import c03_driver as base
 
 PROP = "C04"
@@ -27,7 +29,9 @@ RULE = (
 COMPONENTS_REAL = base.COMPONENTS_REAL
 COMPONENTS_STUB = base.COMPONENTS_STUB
 ASSUMPTIONS = [
-    "the multi-objective/Pareto clause is not decided (a pure function of a finished history)",
+    "the multi-objective clause is decided for the histories that sequential CustomDOE runs with failing / NaN-returning objectives and constraints "
+    "and repeated executions leave (ParetoFront.from_optimization_problem): only what the statement says - reported points are feasible recorded "
+    "points and none is dominated by a feasible recorded one; completeness of the front is not demanded",
     "LP/MILP wrappers report the solver's own solution, evaluated outside the database by design: the selection oracle is not applied to them",
     "a partially evaluated point is never the witness of a least-infeasible violation; as reported point its measure is the lower bound over the constraints it has",
 ]
@@ -36,5 +40,97 @@ ASSUMPTIONS = [
 warmup = base.warmup
 
 
+class TableFun:
+    """Vector function defined by a table over the grid {0, 1/2, 1}^2 (ties between points are the rule)."""
+
+    def __init__(self, name, table, plan, ctx, scale=1.0):
+        self.name, self.table, self.plan, self.ctx, self.scale = name, table, plan, ctx, scale
+        self.seen = []
+
+    def __call__(self, x):
+        key = (int(round(2 * float(x[0]))), int(round(2 * float(x[1]))))
+        if key not in self.seen:
+            self.seen.append(key)
+        j = self.seen.index(key) + 1
+        kind = self.plan.get((self.name, j))
+        if kind == "raise":
+            self.ctx.fire("callable_raises_ValueError")
+            raise ValueError(f"injected failure of {self.name} at its {j}-th distinct point")
+        v = array(self.table[key], dtype=float) * self.scale
+        if kind == "nan":
+            self.ctx.fire("callable_returns_nan")
+            v = v.copy()
+            v[0] = float("nan")
+        return v
+
+
+def pareto_history(ctx):
+    """Multi-objective histories left by sequential DOE runs under failures; the reported front against the history."""
+    from gemseo.algos.design_space import DesignSpace
+    from gemseo.algos.doe.factory import DOELibraryFactory
+    from gemseo.algos.optimization_problem import OptimizationProblem
+    from gemseo.algos.pareto.pareto_front import ParetoFront
+    from gemseo.core.mdo_functions.mdo_function import MDOFunction
+
+    from .. import oracles
+    from ..core import canon
+
+    t = ctx.tape
+    n_obj = t.randint(2, 3, "n_obj")
+    grid = [(i, j) for i in range(3) for j in range(3)]
+    ftab = {k: [t.choice(3, f"f[{k}][{c}]") for c in range(n_obj)] for k in grid}
+    with_g = t.flag(0.6, "ineq")
+    gtab = {k: [t.choice(3, f"g[{k}]") - 1] for k in grid} if with_g else None
+    maximize = t.flag(0.2, "maximize")
+    stop_if_nan = not t.flag(0.5, "nan_recorded")
+    plan = {}
+    for _ in range(t.weighted([2, 2, 1], "n_faults")):
+        name = t.pick(["f", "g"] if with_g else ["f"], "fault_fn")
+        plan[name, 1 + t.choice(6, "fault_at")] = t.pick(["raise", "nan"], "fault_kind")
+    ds = DesignSpace()
+    ds.add_variable("x", size=2, lower_bound=0.0, upper_bound=1.0, value=array([0.5, 0.5]))
+    problem = OptimizationProblem(ds)
+    problem.objective = MDOFunction(TableFun("f", ftab, plan, ctx), "f")
+    if maximize:
+        problem.minimize_objective = False
+    if with_g:
+        problem.add_constraint(MDOFunction(TableFun("g", gtab, plan, ctx, 0.5), "g"), constraint_type="ineq")
+    problem.stop_if_nan = stop_if_nan
+    n_exec = t.randint(1, 2, "n_exec")
+    cfg = {"family": "pareto", "n_obj": n_obj, "ineq": with_g, "maximize": maximize, "stop_if_nan": stop_if_nan,
+           "plan": sorted((k[0], k[1], v) for k, v in plan.items()), "f": canon(ftab), "g": canon(gtab)}
+    ctx.event("cfg", canon(cfg))
+    sig = "pareto CustomDOE"
+    lib = DOELibraryFactory()
+    all_samples = []
+    for e in range(n_exec):
+        with t.frame("exec"):
+            n = t.randint(1, 7, "n_samples")
+            samples = array([[grid[t.choice(9, f"s[{i}]")][c] / 2.0 for c in range(2)] for i in range(n)])
+            all_samples.append(samples.tolist())
+            try:
+                lib.execute(problem, algo_name="CustomDOE", samples=samples)
+            except Exception as exc:  # noqa: BLE001  (what a driver run may raise is C03's subject)
+                ctx.event("exec_raised", type(exc).__name__)
+            entries = oracles.db_entries(problem)
+            ctx.event("history", e, canon([(x, o) for x, o in entries]))
+            try:
+                front = ParetoFront.from_optimization_problem(problem)
+            except Exception as exc:  # noqa: BLE001
+                # (an empty front - no feasible point, or only mutually tied ones - makes the constructor raise: outside the clause)
+                ctx.probe("no_front_reported:" + type(exc).__name__)
+                continue
+            ctx.probe("front_checked")
+            if len(front.f_optima) >= 2:
+                ctx.probe("front_with_two_points_or_more")
+            ctx.event("front", canon(front.f_optima), canon(front.x_optima))
+            for clause, s2, msg in oracles.check_pareto(problem, front.f_optima, front.x_optima):
+                ctx.violate(clause, sig, f"{msg}; samples={all_samples}; cfg={cfg}")
+    ctx.case(("pareto", canon(cfg), canon(all_samples)), nontrivial=len(problem.database) >= 2)
+    ctx.sample = {"family": "pareto front of a DOE history", "cfg": {k: str(v) for k, v in cfg.items()}, "samples": all_samples}
+
+
 def run(ctx):
+    if ctx.tape.flag(0.15, "pareto_history"):
+        return pareto_history(ctx)
     base.run_driver(ctx, "C04")
